@@ -370,7 +370,7 @@ let c16_serve t =
 let c16_members t =
   let n = ti t in
   List.mapi (fun i (c, r) -> { mb_id = z_of_small i; mb_cluster = c; mb_ring0 = r })
-    (tlist t n (fun t -> let c = tz t in let r = ti t = 1 in (c, r)))
+    (tlist t n (fun t -> let c = tz t in let r = (ti t) land 1 = 1 in (c, r)))   (* flag >= 2: the member was renewed into this cluster (the model sees the final table) *)
 let c16_partners t =
   let mine = tz t in let ms = c16_members t in
   "contacted=" ^ join "," sz (sync_candidates mine (z_of_small (-1)) ms)
